@@ -19,7 +19,8 @@ class C15(scen.WorldProp):
                 "Wheatley.C15.wait_cancels_hold_up",
                 "Wheatley.C15.first_strike_despite_hold_up",
                 "Wheatley.C15.lookToRest_keeps",
-                "Wheatley.C15.resume_anchors_with_current_hold_up"]
+                "Wheatley.C15.resume_anchors_with_current_hold_up",
+                "Wheatley.C15.speed_change_keeps_waiting"]
     level_text = ("theorems (any ordered field): initialise_line anchors the line at Look To + 3 s when Wheatley leads "
                   "and at the 'not yet' sentinel when a human leads; with the sentinel a user-controlled turn is the "
                   "pull-off loop, which cannot end before the leader's strike re-anchors the line at that strike's "
@@ -101,6 +102,14 @@ class C15(scen.WorldProp):
                     # Look To is called again while everybody is still waiting for the leader
                     events.append(call(t0 + rng.uniform(0.1, d - 0.1), LOOK_TO))
                     early_others = True       # (strikes heard before the second Look To are forgotten by it)
+            server = False
+            if human_leads and d > 0.5 and spec["start_row"] is None and N % 2 == 0 and rng.random() < 0.25:
+                # on a Ringing Room server: the peal speed is changed (or re-sent) while the band waits
+                # for the leader; the wait must go on and the row is then placed at the speed now in force
+                server = True
+                ps2 = rng.choice([ps, 100, 150, 200])
+                events.append([t0 + rng.uniform(0.1, d - 0.1), "msg", {"m": "setting", "kvs": [["peal_speed", ps2]]}])
+                I = scen.interval(ps2, N)
             base = t_lead if human_leads else t0 + 3
             for b in others:
                 p = opening.index(b)
@@ -114,6 +123,12 @@ class C15(scen.WorldProp):
             sc = {"start": 1000.0, "end": end, "tower_size": N, "events": events,
                   "on_join": scen.humans_on_join(humans),
                   "bot": scen.bot_cfg(spec), "rhythm": scen.rhythm_cfg(kind, peal_speed=ps)}
+            if server:
+                js = {"type": "method", "stage": N, "notation": "x1", "bob": {"0": "14"}, "single": {"0": "1234"}}
+                sc["events"] = [[1000.05, "msg", {"m": "row_gen", "json": js}]] + events
+                sc["on_join"] = scen.humans_on_join(humans, "Wheatley", [b for b in range(1, 17) if b not in humans])
+                sc["bot"] = scen.bot_cfg({"type": "placeholder"}, up_down_in=True, user_name="Wheatley", server_id=6)
+                sc["rhythm"] = scen.rhythm_cfg("wait", inertia=1.0, peal_speed=ps)
             yield {"k": "world", "scenario": sc, "t0": t0, "t_lead": t_lead if human_leads else None,
                    "opening": opening, "humans": humans, "I": I, "early_others": early_others}
 
